@@ -25,6 +25,10 @@ func (ex *Exec) evalCall(e *ast.CallExpr, st *State) Value {
 		}
 		// spec prelude intercepts
 		switch id.Name {
+		case "unfold":
+			if _, isFn := ex.objOf(id).(*types.Func); isFn && ex.isPrelude(ex.objOf(id)) {
+				return ex.evalUnfold(e, st)
+			}
 		case "old":
 			if _, isFn := ex.objOf(id).(*types.Func); isFn && ex.isPrelude(ex.objOf(id)) {
 				if ex.oldState == nil {
@@ -32,6 +36,11 @@ func (ex *Exec) evalCall(e *ast.CallExpr, st *State) Value {
 				}
 				// evaluate in the pre-state without emitting obligations
 				tmp := ex.oldState.fork(st.pc)
+				for l, val := range st.store {
+					if _, have := tmp.store[l]; !have {
+						tmp.store[l] = val
+					}
+				}
 				ex.suppress++
 				v := ex.eval(e.Args[0], tmp)
 				ex.suppress--
@@ -300,10 +309,22 @@ func (ex *Exec) callFunc(f *FuncV, args []Value, st *State, site *ast.CallExpr) 
 		return ex.callExternal(&FuncV{Named: f.Obj.FullName(), Obj: f.Obj, Recv: f.Recv}, args, st, site)
 	}
 	recv := f.Recv
-	// interface dispatch
-	if iv, ok := recv.(*IfaceV); ok {
-		_ = iv
-		unsupported("interface dispatch on wrapped value")
+	if len(ex.prog.OpaqueSpec) > 0 {
+		rn := ""
+		if sig := fi.Obj.Type().(*types.Signature); sig.Recv() != nil {
+			rn = recvTypeName(sig.Recv().Type())
+		}
+		if ex.prog.OpaqueSpec[funcKey(fi.Pkg.PkgPath, rn, fi.Decl.Name.Name)] {
+			nm := fi.Decl.Name.Name
+			if !ex.revealed[nm] {
+				return ex.callOpaqueSpec(fi, recv, args, st)
+			}
+			// revealed: unfold the definition once; nested calls of the same function stay opaque
+			ex.revealed[nm] = false
+			v := ex.inline(fi, nil, fi.Pkg, nil, recv, args, st, site)
+			ex.revealed[nm] = true
+			return v
+		}
 	}
 	if recv != nil {
 		if _, isIface := f.Obj.Type().(*types.Signature).Recv().Type().Underlying().(*types.Interface); isIface {
@@ -395,11 +416,7 @@ func (ex *Exec) inline(fi *FuncInfo, lit *ast.FuncLit, pkg *packages.Package, en
 			vals = vs
 			return
 		}
-		c := s.pc
-		for k := range vals {
-			vals[k] = ex.iteValue(c, vs[k], vals[k])
-		}
-		merged = ex.mergeStates(s, merged)
+		merged, vals = ex.mergeRet(s, vs, merged, vals)
 	}
 	for _, r := range fl.Returns {
 		add(r.St, append([]Value(nil), r.Vals...))
@@ -477,4 +494,89 @@ func (ex *Exec) callInterface(f *FuncV, recv Value, args []Value, st *State, sit
 		unsupported("method %s not found on %s", f.Obj.Name(), dyn)
 	}
 	return ex.callFunc(ex.funcValue(m, rv).(*FuncV), args, st, site)
+}
+
+// callOpaqueSpec applies an opaque spec function as an uninterpreted function of the
+// scalar leaves of its arguments (pointers are dereferenced in the current state).
+func (ex *Exec) callOpaqueSpec(fi *FuncInfo, recv Value, args []Value, st *State) Value {
+	var leaves []*Term
+	var flat func(v Value)
+	flat = func(v Value) {
+		switch x := v.(type) {
+		case *Term:
+			leaves = append(leaves, x)
+		case *StructV:
+			for _, f := range x.Fields {
+				flat(f)
+			}
+		case *ArrayV:
+			for _, e := range x.Elems {
+				flat(e)
+			}
+		case *PtrV:
+			if x.Nil {
+				unsupported("opaque spec function applied to nil")
+			}
+			flat(ex.getPath(ex.load(st, x.Loc), x.Path, st, 0))
+		case *UFArrayV:
+			// tables are identified by name
+		case nil:
+		default:
+			unsupported("opaque spec function argument of kind %T", v)
+		}
+	}
+	if recv != nil {
+		flat(recv)
+	}
+	for _, a := range args {
+		flat(a)
+	}
+	sig := fi.Obj.Type().(*types.Signature)
+	if sig.Results().Len() != 1 {
+		unsupported("opaque spec function must have one result")
+	}
+	rs, ok := scalarSort(sig.Results().At(0).Type())
+	if !ok {
+		unsupported("opaque spec function must return a scalar")
+	}
+	return ex.ts.App("spec."+fi.Pkg.Name+"."+fi.Decl.Name.Name, rs, leaves...)
+}
+
+// evalUnfold evaluates unfold(f(args)) for an opaque spec function f: the result is the
+// opaque application; the definitional equation f(args) == body(args) (nested calls of f
+// opaque) is added as a fact.
+func (ex *Exec) evalUnfold(e *ast.CallExpr, st *State) Value {
+	inner, ok := ast.Unparen(e.Args[0]).(*ast.CallExpr)
+	if !ok {
+		unsupported("unfold wants a call at %s", ex.pos(e.Pos()))
+	}
+	id, ok := ast.Unparen(inner.Fun).(*ast.Ident)
+	if !ok {
+		unsupported("unfold wants a plain spec function call at %s", ex.pos(e.Pos()))
+	}
+	fo, _ := ex.objOf(id).(*types.Func)
+	fi := ex.prog.Funcs[fo]
+	if fi == nil || !ex.prog.OpaqueSpec[funcKey(fi.Pkg.PkgPath, "", fi.Decl.Name.Name)] {
+		unsupported("unfold of a function that is not an opaque spec function at %s", ex.pos(e.Pos()))
+	}
+	var args []Value
+	for _, a := range inner.Args {
+		args = append(args, ex.eval(a, st))
+	}
+	nm := fi.Decl.Name.Name
+	was := ex.revealed[nm]
+	ex.revealed[nm] = false
+	atom := ex.callOpaqueSpec(fi, nil, args, st).(*Term)
+	s2 := st.fork(st.pc)
+	ex.suppress++
+	body := ex.inline(fi, nil, fi.Pkg, nil, nil, args, s2, inner)
+	ex.suppress--
+	ex.revealed[nm] = was
+	bt, ok := body.(*Term)
+	if !ok {
+		unsupported("unfold: non-scalar result")
+	}
+	ex.assume(st, ex.ts.Eq(atom, bt))
+	ex.assumptions["definitional unfolding of recursive spec function "+nm+" (its recursion is structural on an unsigned counter)"] = true
+	return atom
 }
